@@ -334,7 +334,10 @@ def mutate(src: str, rng: random.Random, others: list[str] | None = None, n: int
             elif op == "corrupt_token":
                 new = corrupt_token(cur, rng)
             else:
-                new = STRUCTURAL[op](cur, rng)
+                try:
+                    new = STRUCTURAL[op](cur, rng)
+                except (IndexError, ValueError):   # e.g. ast line numbers vs "\n"-split lines after a CR re-encoding
+                    new = None
             if new is not None and new != cur:
                 cur = new
                 applied.append(op)
